@@ -79,6 +79,13 @@ DONE.update({
          "client loop: schedules are NOT owned (real runtime, real time); upper timing bounds are lenient (3x + 1 s); refused ports are observed indirectly"),
 })
 
+
+DONE.update({
+ "C01": ("e2e", "exploration", "complete scenario matrix on loopback with the real client and server under the real runtime: entry point x payload length x chunking x close order x concurrency (TCP) and entry x topology x payload length (UDP); deadline hits re-run in isolation",
+         "every point of the matrix {TCP remote, Unix-socket remote, SOCKS4, SOCKS4a, SOCKS5 CONNECT ip/domain, HTTP CONNECT} x lengths {0,1,one window+} per direction x 3 chunkings x {client/target half-closes first, client/target closes both, target refuses} x {1,3} connections; UDP {remote, SOCKS5 ipv4/domain header} x {1 client, 3 clients, 1 socket to 2 entries} x payload {0,1,3,4,1400}; bytes compared end to end, half-close observed while the reverse direction still transfers, SOCKS5 UDP replies parsed with an RFC 1928 parser",
+         "schedules are NOT owned: one execution per matrix point under whatever interleaving the kernel and tokio produce (the interleaving-sensitive core is decided with owned schedules by C02/C05/C13); IPv6, TLS and tproxy entry points are not exercised"),
+})
+
 REASON_PENDING = "check not built yet (work in progress; planned engine in DESIGN.md section 3)"
 
 def main():
